@@ -16,6 +16,7 @@ import os, sys, json, time, threading, concurrent.futures
 
 HARNESS = os.path.dirname(os.path.abspath(__file__))
 sys.path.insert(0, os.path.join(HARNESS, "emu"))
+sys.dont_write_bytecode = True
 import emu_build                                              # noqa: E402
 from vlib import Broken, run_replayer, REPO                   # noqa: E402
 
